@@ -22,6 +22,27 @@ def _fmt_assign(fn: ast.AST, target_pred) -> List[ast.Assign]:
     return out
 
 
+def expanded_output(app: ast.AST):
+    """(name of the collection apply_replicate returns, the item stores into it): `return X` or `return list(X.values())`.
+    Shared with C11.R8: the duplicate-identifier check runs on what this function returns."""
+    name = None
+    for r in source.walk_own(app):
+        if isinstance(r, ast.Return) and r.value is not None:
+            v = r.value
+            if isinstance(v, ast.Name):
+                name = v.id
+            else:
+                names = [x.id for x in ast.walk(v) if isinstance(x, ast.Name) and x.id not in ("list", "sorted", "tuple")]
+                if names:
+                    name = names[0]
+    name = name or "all_components"
+    keyed = [n for n in source.walk_own(app) if isinstance(n, ast.Assign) and any(
+        isinstance(t, ast.Subscript) and isinstance(t.value, ast.Name) and t.value.id == name for t in n.targets)]
+    keyed += [c for c in source.walk_own(app) if isinstance(c, ast.Call) and last_attr(c) in ("setdefault", "update", "add")
+              and isinstance(c.func.value, ast.Name) and c.func.value.id == name]
+    return name, keyed
+
+
 def run(ctx) -> None:
     ctx.explanation = (
         "SUB rule on the textual reference rewriting of FlowIR.compile_component_replica / compile_component_aggregate, "
@@ -38,6 +59,10 @@ def run(ctx) -> None:
              "made in the same loop iteration (never a cached or shared scope that would accumulate other components' variables)")
     ctx.rule("C03.R2-naming-agreement", "replica component names and replica references use the same format and index; "
                                         "indices run over range(count); variables['replica'] is the index")
+    ctx.rule("C03.R9-aggregate-expands-every-occurrence", "in compile_component_aggregate each copy is listed once per reference (no duplicate "
+             "in the translation lists), every occurrence of a reference is expanded with the path that follows THAT occurrence (the "
+             "replacement is computed from the match it replaces), and the loop over the two spellings of a reference does not stop "
+             "after the first one that matched")
     ctx.rule("C03.R8-every-replicated-reference-registered", "in apply_replicate every reference whose producer is a replicated, non-aggregating "
              "component is registered for rewriting: no other condition gates the registration")
     ctx.rule("C03.R3-apply-replicate", "a reference is treated as replicated only if its producer has a positive propagated count "
@@ -276,6 +301,59 @@ def run(ctx) -> None:
         ctx.ob("C03.R2-naming-agreement", lp, ok, "the aggregating component consumes all N copies in index order" if ok else
                "the aggregate expansion does not list copies 0..N-1 in order", construct="for %s in %s (aggregate)" % (source.src(lp.target), source.src(lp.iter)))
 
+    # ---------------- R9 -------------------------------------------------------------------------------
+    cfg_agg = CFG(agg)
+    for lp in loops_agg:
+        for ap in [c for c in source.calls_in(lp) if last_attr(c) == "append" and isinstance(c.func.value, ast.Subscript)]:
+            nodes = [n for n in cfg_agg.nodes if n.kind == "stmt" and n.ast is not None and any(c is ap for c in own_calls(n.ast))]
+            lst = source.src(ap.func.value)
+            arg = source.src(ap.args[0]) if ap.args else "?"
+            guards = match.test_nodes(cfg_agg, lambda t, lst=lst, arg=arg: (
+                ("T" if isinstance(match.compare_parts(t)[1], ast.NotIn) else "F")
+                if (match.compare_parts(t) and isinstance(match.compare_parts(t)[1], (ast.In, ast.NotIn))
+                    and source.src(match.compare_parts(t)[0]) == arg and source.src(match.compare_parts(t)[2]) == lst) else None))
+            ok = bool(nodes) and bool(guards) and all(match.only_via_edges(cfg_agg, n, guards) for n in nodes)
+            ctx.ob("C03.R9-aggregate-expands-every-occurrence", ap, ok,
+                   "a copy is added to the translation of a spelling only once" if ok else
+                   "the rewritten reference of a replica is appended to the translation of a spelling without testing that it is already there: "
+                   "a component that lists one reference in both spellings ('A:ref', 'stage0.A:ref') registers both, each registration appends "
+                   "to both spellings, and the aggregator consumes every copy twice", construct="%s.append(%s) <- not already listed" % (lst, arg))
+    aggf = m.functions.get("FlowIR.compile_component_aggregate.aggregate")
+    ctx.require(aggf is not None, "anchor missing: the nested aggregate() of compile_component_aggregate")
+    spell_loops = [n for n in source.walk_own(aggf) if isinstance(n, ast.For) and any(
+        isinstance(c, ast.Call) and last_attr(c) == "sub" for c in ast.walk(n)) and not any(
+        isinstance(x, ast.For) and x is not n and any(isinstance(c, ast.Call) and last_attr(c) == "sub" for c in ast.walk(x)) for x in ast.walk(n))]
+    ctx.floor("C03.R9-aggregate-expands-every-occurrence", len(spell_loops), 1, "loops over the spellings of a reference in aggregate()")
+    for lp in spell_loops:
+        brk = [b for b in ast.walk(lp) if isinstance(b, ast.Break)]
+        ctx.ob("C03.R9-aggregate-expands-every-occurrence", brk[0] if brk else lp, not brk,
+               "both spellings of a reference are tried on every string" if not brk else
+               "the loop over the spellings of a reference stops after the first spelling that changed the string: in 'cat A:ref stage0.A:ref' "
+               "the relative occurrence is left in place and names a component that does not exist after the expansion",
+               construct="aggregate(): no break between the spellings")
+        for c in [c for c in ast.walk(lp) if isinstance(c, ast.Call) and last_attr(c) == "sub" and c.args]:
+            repl = c.args[0]
+            fn_ = None
+            if isinstance(repl, ast.Lambda):
+                fn_ = repl
+            elif isinstance(repl, ast.Name):
+                fn_ = next((d for d in ast.walk(aggf) if isinstance(d, ast.FunctionDef) and d.name == repl.id), None)
+            prm = fn_.args.args[0].arg if fn_ is not None and fn_.args.args else None
+            body = fn_.body if isinstance(fn_, ast.Lambda) else fn_
+            reads_own_match = fn_ is not None and any(isinstance(x, ast.Call) and last_attr(x) in ("group", "groups", "groupdict")
+                                                      and isinstance(x.func.value, ast.Name) and x.func.value.id == prm for x in ast.walk(body))
+            # a pattern without a capture for the path needs nothing from the match
+            pat = c.func.value
+            has_capture = True
+            if isinstance(pat, ast.Call) and last_attr(pat) == "pattern_whole_reference":
+                has_capture = False
+            ok = reads_own_match or not has_capture
+            ctx.ob("C03.R9-aggregate-expands-every-occurrence", c, ok,
+                   "the replacement of an occurrence is computed from that occurrence's own match" if ok else
+                   "the replacement passed to sub() does not read the match it replaces: the path that follows the FIRST occurrence of a reference "
+                   "('A:ref/x.txt') is attached to every occurrence ('-d A:ref' becomes 'A0:ref/x.txt A1:ref/x.txt' too)",
+                   construct="aggregate(): %s <- per-occurrence replacement" % short(c, 50))
+
     # index order must survive: the lists of rewritten replica references are only appended to in range(count) order
     derived = {"translation_map"}
     changed = True
@@ -336,10 +414,15 @@ def run(ctx) -> None:
     pairs.sort(key=lambda n: n.col_offset)
     OWN_AGG = pairs[0].targets[0].elts[1].id if pairs else "aggregate"
     REF_REPL, REF_AGG = (pairs[-1].targets[0].elts[0].id, pairs[-1].targets[0].elts[1].id) if len(pairs) >= 2 else ("ref_replicate", "is_aggregate")
-    rets = [r.value.id for r in source.walk_own(app) if isinstance(r, ast.Return) and isinstance(r.value, ast.Name)]
-    OUT = rets[0] if rets else "all_components"
+    OUT, keyed = expanded_output(app)
+    for kn in keyed:
+        ctx.ob("C03.R3-apply-replicate", kn, False,
+               "apply_replicate collects the expanded components in a mapping keyed by their id (%s): a component whose id equals that of a "
+               "generated copy silently replaces it - fewer than N copies come out and the consumers of the lost copy are wired to an "
+               "unrelated component" % short(kn, 60), construct="expanded components are appended to a list")
     outer_loops = [n for n in source.walk_own(app) if isinstance(n, ast.For) and any(
-        isinstance(c, ast.Call) and last_attr(c) == "append" and dotted(c.func.value) == OUT for c in ast.walk(n))]
+        (isinstance(c, ast.Call) and last_attr(c) == "append" and dotted(c.func.value) == OUT) or
+        (isinstance(c, ast.Assign) and any(isinstance(t, ast.Subscript) and dotted(t.value) == OUT for t in c.targets)) for c in ast.walk(n))]
     COMPS = outer_loops[0].iter.id if outer_loops and isinstance(outer_loops[0].iter, ast.Name) else "flowir_components"
     adds = match.nodes_calling(cfg, lambda c: last_attr(c) == "append" and dotted(c.func.value) == REFS)
     ctx.require(bool(adds), "anchor missing: replicated_refs.append in apply_replicate")
@@ -390,6 +473,8 @@ def run(ctx) -> None:
                construct="replicated_refs.append is gated by the replication tests only")
     # ref_replicate / is_aggregate come from replicate_instructions[(stage, producer)]
     emits = match.nodes_calling(cfg, lambda c: last_attr(c) == "append" and dotted(c.func.value) == OUT)
+    emits += [n for n in cfg.nodes if n.kind == "stmt" and isinstance(n.ast, ast.Assign) and any(
+        isinstance(t, ast.Subscript) and dotted(t.value) == OUT for t in n.ast.targets)]
     outer = [n for n in cfg.nodes if n.kind == "for" and isinstance(n.ast.iter, ast.Name) and n.ast.iter.id == COMPS
              and any(e.ast is not None and any(e.ast is x for x in ast.walk(n.ast)) for e in emits)]
     ctx.require(bool(outer) and bool(emits), "anchor missing: emission loop of apply_replicate")
@@ -403,8 +488,11 @@ def run(ctx) -> None:
            "a component can be dropped from the expanded workflow (no branch emits it)", construct="emission: aggregate | replicate | unchanged")
     agg_tests = match.test_nodes(cfg, lambda t: "T" if isinstance(t, ast.Name) and t.id == OWN_AGG else None)
     for e in emits:
-        call = [c for c in own_calls(e.ast) if last_attr(c) == "append"][0]
-        arg = source.src(call.args[0]) if call.args else ""
+        calls_ = [c for c in own_calls(e.ast) if last_attr(c) == "append"]
+        if calls_:
+            arg = source.src(calls_[0].args[0]) if calls_[0].args else ""
+        else:
+            arg = source.src(e.ast.value) if isinstance(e.ast, ast.Assign) else ""
         if arg == (outer_loops[0].target.id if outer_loops and isinstance(outer_loops[0].target, ast.Name) else "comp"):
             ok = bool(agg_tests) and match.only_via_edges(cfg, e, [(n, "F") for n, _ in agg_tests])
             ctx.ob("C03.R3-apply-replicate", e.ast, ok, "a component is left unchanged only if it neither aggregates nor replicates" if ok else
